@@ -128,8 +128,8 @@ def round_t(t, prec, rnd):
     sign, man, exp, bc = t
     if man == 0:
         return t
-    n, d = to_q(t)
-    return round_q(n, d, prec, rnd)
+    w = round_q(-man if sign else man, 1, prec, rnd)
+    return (w[0], w[1], w[2] + exp, w[3])
 
 
 def fits(n, d, prec):
